@@ -610,5 +610,17 @@ func (core JApiCore) addJsonRpcResult(d *directive.Directive) *jerr.JApiError {
 }
 
 func (core JApiCore) addTags(d *directive.Directive) *jerr.JApiError {
+	// One context has one Tags directive: only the first one is ever read, a second one was checked and
+	// then ignored.
+	if d.Parent != nil {
+		for _, s := range d.Parent.Children {
+			if s == d {
+				break
+			}
+			if s.Type() == directive.Tags {
+				return d.KeywordError(jerr.NotUniqueDirective)
+			}
+		}
+	}
 	return core.catalog.CheckTags(d)
 }
